@@ -261,7 +261,7 @@ def execute(plan, out, log):
         if name == "Newton":
             t = np.asarray(sol.t)
             want = np.linspace(0, 1, plan["n_load_steps"] + 1)
-            if t[0] != 0.0 or not np.array_equal(t, want[: len(t)]):
+            if (len(t) and t[0] != 0.0) or not np.array_equal(t, want[: len(t)]):
                 out["violations"].append(violation("grid_step", name, f"load steps {t.tolist()} are not a prefix of linspace(0,1,{plan['n_load_steps'] + 1})"))
                 return
             if not truncated and (len(t) != len(want)):
@@ -272,7 +272,7 @@ def execute(plan, out, log):
                 return
     if plan["saveload"]:
         save_load(sol, name, out)
-    out["sim_time"] = float(sol.t[-1] - sol.t[0]) if name != "Riks" and nt else 0.0
+    out["sim_time"] = float(sol.t[-1] - sol.t[0]) if (name != "Riks" and nt) else 0.0
     out["nontrivial"] = nt >= 2
     out["abstract"] = repr((name, plan.get("dt"), plan.get("n", plan.get("n_load_steps")), plan.get("t1_kind"), (f or {}).get("kind"), plan.get("scene_kind")))
 
